@@ -332,7 +332,7 @@ def compute_gradient_and_dynamics(
     if record_all:
         times = start_time + np.arange(len(states))*dt
     else:
-        times = [start_time + len(states)*dt]
+        times = [start_time + num_steps*dt]
 
     dynamics = Dynamics(times=list(times),states=states)
 
